@@ -8,7 +8,15 @@
    delivered stream is a prefix of the written one: never missing-in-the-middle, duplicated, reordered or
    foreign bytes; and the client's redialing adapter reports an error to KCP only after Close or a failed
    dial (C17). Liveness ("provided some working proxy eventually becomes available") rests on KCP
-   retransmission and is observed by the rig only. *)
+   retransmission and is observed by the rig only.
+   The ARQ boundary, precisely: kcp-go and smux themselves enter ONLY as the hypothesis [arq_safe] (library
+   boundary; their behaviour is exercised by the rig of lib/checks/c01.py, not proved). That the hypothesis is
+   satisfiable by a NON-TRIVIAL reliable-stream layer is shown by the toy ARQ of Proofs/ToyArqProofs.v, a
+   selective-repeat receiver with the shape of KCP's receive side (conversation id, sequence number, rcv_nxt,
+   reorder buffer drained while contiguous): it is proved safe for all inputs (C01_toy_arq_safe), complete
+   when every segment arrives in any order with duplicates and foreign segments (C01_toy_arq_complete), and
+   the two stream theorems are instantiated with it (…_toy_arq, no ARQ hypothesis left). The toy ARQ is a
+   witness of satisfiability; it is NOT a model of kcp-go. *)
 From Coq Require Import List NArith Bool Arith.
 From Snow Require Import Lib.Wire Model.Encap Proofs.EncapProofs Model.CarrierLayer Proofs.CarrierProofs Proofs.PacketPathProofs.
 From Snow Require Import Model.Redial Proofs.RedialProofs.
@@ -71,3 +79,76 @@ Example C01_example :
   exists w, wire_of ps = Some w /\ queued_from cid w 21 = [[65;66;67]] /\ queued_from cid w 23 = ps /\
             queued_from cid w 12 = [] /\ read_from w 5 [(1%nat, false); (0%nat, false)] = [[65;66;67]].
 Proof. eexists. split; [vm_compute; reflexivity|]. repeat split. Qed.
+
+(* ---------- toy ARQ: the hypothesis is satisfiable ---------- *)
+From Snow Require Import Proofs.ToyArqProofs.
+
+(* The ARQ hypothesis of the two stream theorems holds of the toy selective-repeat ARQ, for all inputs. *)
+Theorem C01_toy_arq_safe : forall conv written sent recv,
+  toy_packets_of conv written sent -> (forall p, In p recv -> In p sent) ->
+  is_prefix (toy_stream_of conv recv) written.
+Proof. exact toy_arq_safe. Qed.
+
+(* ... and not because it delivers nothing: when every segment arrives (any order, any duplicates, foreign or
+   undecodable segments anywhere in between) the whole stream is delivered. *)
+Theorem C01_toy_arq_complete : forall conv (chunks : list bytes) (recv : list bytes),
+  (forall i, (i < length chunks)%nat -> In (toy_seg conv i (nth i chunks [])) recv) ->
+  (forall p, In p recv ->
+     (exists i, (i < length chunks)%nat /\ p = toy_seg conv i (nth i chunks [])) \/ toy_foreign conv p) ->
+  toy_stream_of conv recv = concat chunks.
+Proof. exact toy_arq_complete. Qed.
+
+(* A segment handed to the receiver a second time changes nothing; a foreign segment changes nothing. *)
+Theorem C01_toy_arq_dup_ignored : forall conv l1 p l2 l3,
+  toy_stream_of conv (l1 ++ [p] ++ l2 ++ [p] ++ l3) = toy_stream_of conv (l1 ++ [p] ++ l2 ++ l3).
+Proof. exact toy_dup_ignored. Qed.
+
+Theorem C01_toy_arq_foreign_ignored : forall conv l1 p l2, toy_foreign conv p ->
+  toy_stream_of conv (l1 ++ [p] ++ l2) = toy_stream_of conv (l1 ++ l2).
+Proof. exact toy_foreign_ignored. Qed.
+
+(* The two stream theorems with the ARQ hypothesis discharged by the toy ARQ. *)
+Theorem C01_upstream_stream_prefix_toy_arq :
+  forall conv written sent cid (cs : list ucarrier) recv,
+    length cid = 8%nat -> toy_packets_of conv written sent ->
+    (forall c, In c cs -> wire_of (u_ps c) = Some (u_w c) /\ forall p, In p (u_ps c) -> In p sent) ->
+    (forall p, In p recv -> exists c, In c cs /\ In p (queued_from cid (u_w c) (u_cut c))) ->
+    is_prefix (toy_stream_of conv recv) written.
+Proof. exact upstream_stream_prefix_toy. Qed.
+
+Theorem C01_downstream_stream_prefix_toy_arq :
+  forall conv written sent (cs : list dcarrier) recv,
+    toy_packets_of conv written sent ->
+    (forall c, In c cs -> wire_of (d_ps c) = Some (d_w c) /\ forall p, In p (d_ps c) -> In p sent) ->
+    (forall p, In p recv -> exists c, In c cs /\ In p (read_from (d_w c) (d_cut c) (d_sc c))) ->
+    is_prefix (toy_stream_of conv recv) written.
+Proof. exact downstream_stream_prefix_toy. Qed.
+
+(* non-vacuity, concrete bytes: session 7 writes "ABCDEF" as the three segments AB | C | DEF.
+   - handed the segments reordered, with a duplicate, a segment of session 9 and an undecodable one, the
+     receiver delivers the whole stream;
+   - handed segments 2 and 0 but never segment 1, it delivers exactly the first chunk (a strict prefix);
+   - end to end through the Snowflake layers: one upstream carrier framing [seg2; seg0; seg0; seg1], uncut,
+     yields the whole stream; cut inside the last framed segment it yields the first chunk. *)
+Example C01_toy_arq_example :
+  let conv := 7 in
+  let written := [65;66;67;68;69;70] in
+  let s0 := [7;0;65;66] in let s1 := [7;1;67] in let s2 := [7;2;68;69;70] in
+  let cid := [1;2;3;4;5;6;7;8] in
+  toy_packets_of conv written [s0; s1; s2; s1] /\
+  toy_stream_of conv [s2; [9;0;88;89]; s0; [7]; s2; s1; s0] = written /\
+  toy_stream_of conv [s2; s0; s2] = [65;66] /\
+  exists w, wire_of [s2; s0; s0; s1] = Some w /\
+            queued_from cid w (length (carrier_stream cid w)) = [s2; s0; s0; s1] /\
+            toy_stream_of conv (queued_from cid w (length (carrier_stream cid w))) = written /\
+            queued_from cid w (length (carrier_stream cid w) - 2)%nat = [s2; s0; s0] /\
+            toy_stream_of conv (queued_from cid w (length (carrier_stream cid w) - 2)%nat) = [65;66].
+Proof.
+  cbv zeta. split.
+  - exists [[65;66]; [67]; [68;69;70]]. split; [reflexivity|].
+    intros p [<-|[<-|[<-|[<-|[]]]]];
+      [exists 0%nat | exists 1%nat | exists 2%nat | exists 1%nat]; (split; [cbn; repeat constructor | reflexivity]).
+  - split; [vm_compute; reflexivity|]. split; [vm_compute; reflexivity|].
+    eexists. split; [vm_compute; reflexivity|].
+    repeat (split; [vm_compute; reflexivity|]). vm_compute; reflexivity.
+Qed.
